@@ -455,6 +455,21 @@ func WiringRows(fn *ssa.Function, want func(callee string) bool) []string {
 						std = true
 					}
 				}
+				// reads and writes of the cluster through the API clients: which object (namespace, name,
+				// selector) is read is decided by the arguments
+				extClient := false
+				if cc.IsInvoke() {
+					ts := cc.Value.Type().String()
+					extClient = strings.Contains(ts, "sigs.k8s.io/controller-runtime/pkg/client.") || strings.Contains(ts, "k8s.io/client-go/listers/") || strings.Contains(ts, "k8s.io/client-go/kubernetes/typed/")
+				}
+				if extClient {
+					var as []string
+					for _, a := range core.CallArgs(cc) {
+						as = append(as, argText(a))
+					}
+					out = append(out, name+"("+strings.Join(as, ", ")+")")
+					continue
+				}
 				if std {
 					// pure helpers of the standard library: their operands decide conditions and keys —
 					// unless the result only ends up in a log line or an error message
